@@ -70,6 +70,44 @@ macro_rules! bodies {
                 }
             };
         }
+        /// every coefficient array, x restricted to four values (1, 2, -1.5, 0.75): cheap enough for the quick
+        /// tier at every degree; catches dropped / duplicated / shifted coefficients and mixed-up powers
+        macro_rules! staging_xset {
+            ($name:ident, $meth:ident, $len:expr) => {
+                pub fn $name<S: Src>(s: &mut S) -> Outcome {
+                    let sel = s.u8();
+                    crate::assume!(s, sel < 4);
+                    let x = match sel {
+                        0 => P::ONE,
+                        1 => P::from_f64(2.0),
+                        2 => P::from_f64(-1.5),
+                        _ => P::from_f64(0.75),
+                    };
+                    let mut c = [P::ZERO; $len];
+                    let mut i = 0;
+                    while i < $len {
+                        c[i] = P::from_bits(s.$draw());
+                        i += 1;
+                    }
+                    let got = x.$meth(&c).to_bits();
+                    let want = documented(x, &c).to_bits();
+                    cover!(got & 1 == 1 && got != 1 && c[0].to_bits() & 1 == 1 && sel == 2);
+                    Outcome::eq(got as u64, want as u64)
+                }
+            };
+        }
+        staging_xset!(poly7_xset, poly7, 8);
+        staging_xset!(poly8_xset, poly8, 9);
+        staging_xset!(poly9_xset, poly9, 10);
+        staging_xset!(poly10_xset, poly10, 11);
+        staging_xset!(poly11_xset, poly11, 12);
+        staging_xset!(poly12_xset, poly12, 13);
+        staging_xset!(poly13_xset, poly13, 14);
+        staging_xset!(poly14_xset, poly14, 15);
+        staging_xset!(poly15_xset, poly15, 16);
+        staging_xset!(poly16_xset, poly16, 17);
+        staging_xset!(poly17_xset, poly17, 18);
+        staging_xset!(poly18_xset, poly18, 19);
         staging!(poly1_staging, poly1, 2);
         staging!(poly2_staging, poly2, 3);
         staging!(poly3_staging, poly3, 4);
